@@ -1604,7 +1604,28 @@ class VM:
             "sort": sort_fn,
             "reduceRight": reduceRight_fn,
         }
-        return methods.get(method, lambda *args: UNDEFINED)
+        return self._for_receiver(
+            methods.get(method, lambda *args: UNDEFINED),
+            self._make_array_method,
+            "Array",
+            method,
+            lambda v: isinstance(v, JSArray),
+        )
+
+    @staticmethod
+    def _for_receiver(fn, make, kind: str, method: str, accepts) -> Any:
+        """A built-in method value is made for its receiver; called through
+        call/apply/bind with another receiver, that one's method is made."""
+
+        def rebind(this_val):
+            if accepts(this_val):
+                return make(this_val, method)
+            raise JSTypeError(
+                f"{kind}.prototype.{method} called on an incompatible receiver"
+            )
+
+        fn._rebind = rebind
+        return fn
 
     def _make_object_method(self, obj: JSObject, method: str) -> Any:
         """Create a bound object method."""
@@ -1620,7 +1641,13 @@ class VM:
             "toString": toString_fn,
             "hasOwnProperty": hasOwnProperty_fn,
         }
-        return methods.get(method, lambda *args: UNDEFINED)
+        return self._for_receiver(
+            methods.get(method, lambda *args: UNDEFINED),
+            self._make_object_method,
+            "Object",
+            method,
+            lambda v: type(v) is JSObject,
+        )
 
     def _make_function_method(self, func: JSFunction, method: str) -> Any:
         """Create a bound function method (bind, call, apply)."""
@@ -1691,6 +1718,11 @@ class VM:
         """Create a method for Python callables (including JSBoundMethod)."""
         from .values import JSBoundMethod
 
+        def for_receiver(this_val):
+            """Built-in methods of arrays, strings etc. are made per receiver."""
+            rebind = getattr(fn, "_rebind", None)
+            return fn if rebind is None else rebind(this_val)
+
         def call_fn(*args):
             """Call with explicit this and individual arguments."""
             this_val = args[0] if args else UNDEFINED
@@ -1698,8 +1730,8 @@ class VM:
             # JSBoundMethod expects this as first arg
             if isinstance(fn, JSBoundMethod):
                 return fn(this_val, *call_args)
-            # Regular Python callable doesn't use this
-            return fn(*call_args)
+            # Other host callables don't use this
+            return for_receiver(this_val)(*call_args)
 
         def apply_fn(*args):
             """Call with explicit this and array of arguments."""
@@ -1717,7 +1749,7 @@ class VM:
 
             if isinstance(fn, JSBoundMethod):
                 return fn(this_val, *apply_args)
-            return fn(*apply_args)
+            return for_receiver(this_val)(*apply_args)
 
         def bind_fn(*args):
             """Create a bound function with fixed this."""
@@ -1730,9 +1762,10 @@ class VM:
                     return fn(bound_this, *bound_args, *call_args)
 
             else:
+                target = for_receiver(bound_this)
 
                 def bound(*call_args):
-                    return fn(*bound_args, *call_args)
+                    return target(*bound_args, *call_args)
 
             return bound
 
@@ -1806,7 +1839,13 @@ class VM:
             "test": test_fn,
             "exec": exec_fn,
         }
-        return methods.get(method, lambda *args: UNDEFINED)
+        return self._for_receiver(
+            methods.get(method, lambda *args: UNDEFINED),
+            self._make_regexp_method,
+            "RegExp",
+            method,
+            lambda v: isinstance(v, JSRegExp),
+        )
 
     @staticmethod
     def _typed_array_buffer(arr: JSTypedArray) -> JSArrayBuffer:
@@ -1880,7 +1919,13 @@ class VM:
             "subarray": subarray_fn,
             "set": set_fn,
         }
-        return methods.get(method, lambda *args: UNDEFINED)
+        return self._for_receiver(
+            methods.get(method, lambda *args: UNDEFINED),
+            self._make_typed_array_method,
+            "TypedArray",
+            method,
+            lambda v: isinstance(v, JSTypedArray),
+        )
 
     def _make_number_method(self, n: float, method: str) -> Any:
         """Create a bound number method."""
@@ -1982,7 +2027,13 @@ class VM:
             "toPrecision": toPrecision,
             "valueOf": valueOf,
         }
-        return methods.get(method, lambda *args: UNDEFINED)
+        return self._for_receiver(
+            methods.get(method, lambda *args: UNDEFINED),
+            self._make_number_method,
+            "Number",
+            method,
+            lambda v: isinstance(v, (int, float)) and not isinstance(v, bool),
+        )
 
     def _number_to_base(self, n: float, radix: int) -> str:
         """Convert a finite non-negative number to a string in the given base."""
@@ -2547,7 +2598,13 @@ class VM:
             "search": search,
             "toString": toString,
         }
-        return methods.get(method, lambda *args: UNDEFINED)
+        return self._for_receiver(
+            methods.get(method, lambda *args: UNDEFINED),
+            self._make_string_method,
+            "String",
+            method,
+            lambda v: isinstance(v, str),
+        )
 
     def _set_property(self, obj: JSValue, key: JSValue, value: JSValue) -> None:
         """Set property on object."""
